@@ -804,6 +804,8 @@ func (c *Ctx) execBuiltin(s *State, in ssa.Instruction, b *ssa.Builtin, cc *ssa.
 			set(c.freshValue(s, types.Typ[types.Int], "copy"))
 			return
 		}
+		s.seq++
+		s.trace = append(s.trace, Event{Name: "copy", Args: args, ArgT: []types.Type{cc.Args[0].Type(), cc.Args[1].Type()}, PC: len(s.pc), Pos: pos, Seq: s.seq})
 		n := Ite(Le(dst.Len, srcLen), dst.Len, srcLen)
 		nc := c.freshConst("copyn", SInt)
 		s.assume(Eq(nc, n))
